@@ -34,6 +34,18 @@ class PathV:
             return fs(I)[self.name] != ABSENT
         if name in ("exists",):
             return fs(I)[self.name] != ABSENT
+        if name == "stat":
+            # size of the file: anything >= 0 for a partially written file (a crash inside pickle.dump leaves
+            # a truncated, usually non-empty file), > 0 for a complete snapshot
+            from pyvc.interp import RaiseSig
+            st = fs(I)[self.name]
+            if I.ctx.branch(st == ABSENT):
+                raise RaiseSig("FileNotFoundError", self.name, I.ctx.cur_line)
+            size = I.ctx.fresh(f"size({self.name})", "int")
+            I.ctx.assume(z3.And(size >= 0, z3.Implies(st == COMPLETE, size > 0)))
+            o = SymObj("stat_result", None)
+            o.fields["st_size"] = size
+            return o
         raise Unsupported(f"Path.{name}")
 
 
@@ -167,3 +179,43 @@ def register(reg, prop="C27"):
             "implies(effects() == 0, self.last_save_time == old(self.last_save_time))",
         ],
     ))
+
+
+    # ---- the reader: MPSBackend.resume after a crash at ANY point of save_simulation ----------------
+    # What the writer's contract guarantees at every crash point is exactly the precondition here: the
+    # advertised file is a complete snapshot, the temporaries (.new, .bak) are in an arbitrary state --
+    # absent, partially written (a crash inside pickle.dump leaves a truncated non-empty file) or
+    # complete.  The reader must load a complete snapshot, and must not have damaged the advertised file
+    # on the way (every file-system effect it performs is a crash point of its own).
+    BACKEND = "emu_mps.mps_backend"
+
+    def m_load(I, fh, *a, **k):
+        if not isinstance(fh, FileV):
+            raise Unsupported("pickle.load from a non-ghost file")
+        I.ctx.prove("loaded-file-is-a-complete-snapshot", fs(I)[fh.path.name] == COMPLETE, "safety")
+        I.ctx.ghost["loaded_from"] = fh.path.name
+        o = impl_obj(I, "impl")
+        o.fields["results"] = Opaque("impl.results")
+        return o
+    reg.external["pickle.load"] = m_load
+
+    def run_model(I, impl):
+        I.ctx.ghost["fs_at_run"] = dict(fs(I))
+        return impl.fields["results"]
+
+    def setup_reader(I, fr):
+        setup(I, fr)
+        fr.locals["loaded_from"] = lambda I2: I2.ctx.ghost.get("loaded_from", "")
+        fr.locals["fs_at_run"] = lambda I2, nm: I2.ctx.ghost["fs_at_run"][nm]
+    reg.add_contract(Contract(
+        f"{BACKEND}:MPSBackend.resume", property=prop, label="MPSBackend.resume[after a crash]",
+        params={"autosave_file": lambda I, n: PathV("autosave.dat")}, setup=setup_reader,
+        policies={f"{BACKEND}:MPSBackend._run": run_model,
+                  f"{IMPL}:MPSBackendImpl.permute_results": lambda I, self, results, permute: results},
+        raises={"ValueError": "False"},
+        ensures=["loaded_from() == 'autosave.dat'",
+                 # the run continues from a directory whose advertised file is still that complete snapshot
+                 "fs_at_run('autosave.dat') == 2"],
+        ensures_names=["snapshot-loaded-from-the-advertised-file", "advertised-file-still-complete-when-the-run-continues"],
+    ), callsite=False)
+
